@@ -263,6 +263,68 @@ M("c09-listdir-secure", "C09", "src/ckl/functions.py",
         add(environment, FuncListDir())''', "list_dir bound without the guard")
 
 
+# ---- C02
+M("c02-sub-right-assoc", "C02", "src/ckl/parser.py",
+  '''            expr = func_call("sub", expr, parse_mul_expr(lexer), pos)''',
+  '''            expr = func_call("sub", expr, parse_add_expr(lexer), pos)''',
+  "binary minus groups to the right")
+M("c02-chain-first-operand", "C02", "src/ckl/parser.py",
+  '''        result.addAndClause(cmp)
+        lhs = rhs''', '''        result.addAndClause(cmp)''',
+  "every chain element is compared with the first operand")
+M("c02-and-eager", "C02", "src/ckl/nodes.py",
+  '''    def evaluate(self, environment):
+        for expression in self.expressions:
+            value = expression.evaluate(environment)
+            if not value.isBoolean():
+                raise CklRuntimeError(
+                    ValueString("ERROR"),
+                    f"Expected boolean but got {value.type()}",
+                    self.pos,
+                )
+            if not value.value:
+                return FALSE
+        return TRUE''', '''    def evaluate(self, environment):
+        values = [e.evaluate(environment) for e in self.expressions]
+        for value in values:
+            if not value.isBoolean():
+                raise CklRuntimeError(
+                    ValueString("ERROR"),
+                    f"Expected boolean but got {value.type()}",
+                    self.pos,
+                )
+        for value in values:
+            if not value.value:
+                return FALSE
+        return TRUE''', "and evaluates all clauses before testing")
+M("c02-int-add-float", "C02", "src/ckl/functions.py",
+  '''        if a.isInt() and b.isInt():
+            return ValueInt(a.value + b.value)''',
+  '''        if a.isInt() and b.isInt():
+            return ValueInt(int(float(a.value) + float(b.value)))''',
+  "int addition through floats")
+M("c02-is-not-empty", "C02", "src/ckl/parser.py",
+  '''                return NodeNot(func_call("is_empty", expr, None, pos), pos)''',
+  '''                return func_call("is_empty", expr, None, pos)''',
+  "is not empty lost its negation")
+M("c02-div-floor", "C02", "src/ckl/functions.py",
+  '''            quotient = abs(a.value) // abs(divisor)
+            if (a.value < 0) != (divisor < 0):
+                quotient = -quotient
+            return ValueInt(quotient)''',
+  '''            return ValueInt(a.value // divisor)''',
+  "integer division floors instead of truncating")
+M("c02-mul-before-unary", "C02", "src/ckl/parser.py",
+  '''            call = NodeFuncall(NodeIdentifier("sub", pos), pos)
+            call.addArg("a", NodeLiteral(ValueInt(0), pos))
+            call.addArg("b", parse_pred_expr(lexer))
+            return call''',
+  '''            call = NodeFuncall(NodeIdentifier("sub", pos), pos)
+            call.addArg("a", NodeLiteral(ValueInt(0), pos))
+            call.addArg("b", parse_mul_expr(lexer))
+            return call''', "unary minus takes a whole product as operand")
+
+
 def run(cmd, cwd, env=None, timeout=3600):
     t0 = time.time()
     try:
